@@ -65,7 +65,24 @@ def oracle(lines):
     return True, ""
 
 
-def judge_tree(ctx, tree, kind, desc, key):
+PARAMS_TAG = re.compile(rb"USER_[A-Za-z0-9_]+_PARAMS")
+
+
+def unexpected_duplicates(lines, f, expected):
+    """duplicated ..._PARAMS tag names of a UML file that the diagram does NOT stand for: the documented scheme
+    USER_<ret>_<class>_<op>_<n>_PARAMS yields a duplicate only when the class really emits two operations with equal
+    (return type text, class, name, arity) -- umlsynth.expected_param_tags, computed from the abstract diagram.
+    None = no expectation available (model not built / does not return)."""
+    if expected is None:
+        return None
+    tl = [l for l in lines if kj.PFX in l]
+    names = [m.group(0).decode() for l in tl[::2] for m in [PARAMS_TAG.search(l)] if m]
+    dups = {n for n, c in Counter(names).items() if c > 1}
+    exp = Counter(expected.get(os.path.splitext(os.path.basename(f))[0], []))
+    return sorted(n for n in dups if exp.get(n, 0) < 2)
+
+
+def judge_tree(ctx, tree, kind, desc, key, expected=None):
     """every file of a generated tree; returns number of files with at least one tag pair"""
     nt = 0
     for f, data in sorted(tree.items()):
@@ -83,9 +100,23 @@ def judge_tree(ctx, tree, kind, desc, key):
             fk = "%s:%s" % (key, os.path.basename(f))
             if kind in ("uml", "uml_cs") and why.startswith("duplicate USER tag") and all(x.strip().endswith("_PARAMS") for x in why.split(":", 1)[1].split(",")):
                 fk = "uml:duplicate-operation-tag"      # the operation-body tag USER_<ret>_<class>_<op>_<n>_PARAMS is not injective
+                extra = unexpected_duplicates(lines, f, expected)
+                if extra:                               # ... but THIS duplicate is not one the diagram stands for: a new defect
+                    fk = "uml:unexpected-duplicate-operation-tag"
+                    why += " -- not explained by two operations of equal (return type, class, name, arity): %s" % ", ".join(extra[:3])
             ctx.violation("generated file %s is not re-preservable: %s" % (f, why),
                           {"kind": kind, "input": desc, "file": f, "reason": why, "finding_key": fk})
     return nt
+
+
+def uml_expectation(ctx, umlsynth, cd):
+    if ctx.km is None:
+        return None
+    try:
+        return umlsynth.expected_param_tags(ctx.km, cd)
+    except Exception:  # noqa -- adaptor / model cannot express this mutant
+        ctx.count("uml_expectation_unavailable")
+        return None
 
 
 def sm_case(ctx, kind, table, seed, name="X", usertags=None, key=None):
@@ -191,6 +222,7 @@ def run(ctx):
                         ctx.count("mutator_failed")
                         continue
                 nsf = bool(i % 2)
+                expected = uml_expectation(ctx, umlsynth, cd)
                 with scratch() as d:
                     try:
                         umlsynth.generate(cd, os.path.join(d, "o"), lang, nsf)
@@ -198,9 +230,29 @@ def run(ctx):
                         ctx.count("generator_rejected:%s" % type(e).__name__)
                         continue
                     tree = read_tree(os.path.join(d, "o"))
-                nt = judge_tree(ctx, tree, kind, {"diagram": diag, "mutations": [str(x) for x in muts], "nsf": nsf}, "%s:%s" % (kind, diag) if not muts else "%s-mutant" % kind)
+                nt = judge_tree(ctx, tree, kind, {"diagram": diag, "mutations": [str(x) for x in muts], "nsf": nsf},
+                                "%s:%s" % (kind, diag) if not muts else "%s-mutant" % kind, expected=expected)
                 ctx.case((kind, diag, i, str(muts), nsf), nontrivial=nt > 0)
                 ctx.count("%s_%s_%s" % (kind, diag, "mutant" if muts else "shipped"))
+    # directed UML probes (shapes random edits reach rarely): explicit constructor of the generated constructor's arity,
+    # overloads of equal arity returning same-named classes of two packages / the same type (the latter = K-C07-1)
+    for probe in umlsynth.probe_names("TestClassDiagram"):
+        if not probe.startswith(("explicit-ctor", "overloads")):
+            continue
+        for lang, kind in (("cpp", "uml"), ("csharp", "uml_cs")):
+            cd = umlsynth.load("TestClassDiagram")
+            umlsynth.apply_probe(cd, probe)
+            expected = uml_expectation(ctx, umlsynth, cd)
+            with scratch() as d:
+                try:
+                    umlsynth.generate(cd, os.path.join(d, "o"), lang, True)
+                except BaseException as e:  # noqa
+                    ctx.count("generator_rejected:%s" % type(e).__name__)
+                    continue
+                tree = read_tree(os.path.join(d, "o"))
+            nt = judge_tree(ctx, tree, kind, {"diagram": "TestClassDiagram", "probe": probe, "nsf": True}, "%s-probe" % kind, expected=expected)
+            ctx.case((kind, "probe", probe), nontrivial=nt > 0)
+            ctx.count("%s_probe_%s" % (kind, probe.split(":")[0]))
     # directed probes that keep the recorded findings honest (they must still reproduce)
     sm_case(ctx, "py", [["S1", "E1", "S2", "OnGo", "CONSTRUCTOR"], ["S2", "E1", "S1", "OnGo", "IMPORTS"]], 1, key="fixed-name-collision")
     sm_case(ctx, "cs", [["Foo", "E1", "Bar", "OnGo", "OnFooExit"]], 1, key="on-state-exit-collision")
@@ -214,6 +266,16 @@ def replay(ctx, data):
         inp = data["input"]
         before = len(ctx.violations) + len(ctx.known)
         sm_case(ctx, data["kind"], inp["table"], inp["iface_seed"], inp.get("name", "X"), inp.get("usertags"))
+        return len(ctx.violations) + len(ctx.known) == before
+    if "probe" in data.get("input", {}):
+        from .. import umlsynth
+        cd = umlsynth.load(data["input"]["diagram"])
+        umlsynth.apply_probe(cd, data["input"]["probe"])
+        expected = uml_expectation(ctx, umlsynth, cd)
+        before = len(ctx.violations) + len(ctx.known)
+        with scratch() as d:
+            umlsynth.generate(cd, os.path.join(d, "o"), "cpp" if data["kind"] == "uml" else "csharp", data["input"].get("nsf", True))
+            judge_tree(ctx, read_tree(os.path.join(d, "o")), data["kind"], data["input"], "%s-probe" % data["kind"], expected=expected)
         return len(ctx.violations) + len(ctx.known) == before
     print("replay of UML/protocol cases: re-run the check with the same VERIF_SEED")
     return False
